@@ -105,12 +105,15 @@ func (e *recEnv) dump(ctx sdk.Context) any {
 	defer it.Close()
 	for ; it.Valid(); it.Next() {
 		id := it.Key()[len(recordtypes.RecordKey):]
-		// read it back through the keeper's getter, as the query does
-		r, found := k.GetRecord(ctx, id)
-		if !found {
+		// read it back the way a user does: through the module's gRPC query service, under the id
+		// string the message server returns (lower-case hex of the key).  A record the query
+		// cannot produce (error, or the empty record it answers for an unknown id) is absent from
+		// the observed state, whatever the store holds.
+		resp, err := k.Record(ctx, &recordtypes.QueryRecordRequest{RecordId: hex.EncodeToString(id)})
+		if err != nil || resp == nil || resp.Record == nil || (len(resp.Record.Contents) == 0 && resp.Record.Creator == "") {
 			continue
 		}
-		s.recs[strings.ToUpper(hex.EncodeToString(id))] = r
+		s.recs[strings.ToUpper(hex.EncodeToString(id))] = *resp.Record
 	}
 	return s
 }
